@@ -899,8 +899,8 @@ func main() {
 }
 
 func run(r *harness.Run) {
-	r.Rule("real library code (instrumented: every lock, wait group, sync.Map, atomic.Value, go statement, channel receive, time.Now and time.AfterFunc goes through a cooperative scheduler) driven by small closed harnesses: DNSCache.lookup / DialContext from 3 threads over colliding hosts with cache sizes 1-2, a clock thread crossing the expiry and resolver faults; DirectKeyFetcher.FetchKeys (1-3 concurrent calls, 2-3 remote servers + the local one, every per-server answer in {keys, error then notary keys, both fail}); concurrent KeyRing.VerifyJSONs batches over overlapping servers; destinationTripper.getTransport / reaper (explicit and timer-fired); first-time accessor calls on one shared event from 3 threads. EVERY schedule with at most B deviations is executed (a deviation = preempting a runnable thread, or an environment fault; switches forced by blocking are free and fully expanded). Oracles: no deadlock / horizon overrun / panic; cache size at every scheduling point; addresses belong to the host and were answered by the resolver; no cached entry served at or past its expiry; FetchKeys result == union of per-server successes; VerifyJSONs results == sequential results; transport TLS name and linearizability (porcupine) against a sequential cache model; vector-clock data races over the field accesses reported by the instrumented methods. Plus a free-running pass of the same bodies under the Go race detector.")
-	r.Assume("scheduling points at synchronisation operations only; unsynchronised accesses are covered by the vector-clock oracle on instrumented receiver-field accesses (eventV1/2/3, DNSCache, destinationTripper) and by the separate race-detector pass", "the clock is strictly increasing: no two reads return the same instant", "http.Transport round trips and ResolveServer are outside the scheduler: the resolution cache (sync.Map) of RoundTrip is not driven")
+	r.Rule("real library code (instrumented: every lock, wait group, sync.Map, atomic.Value, go statement, channel receive, time.Now and time.AfterFunc goes through a cooperative scheduler) driven by small closed harnesses: DNSCache.lookup / DialContext from 3 threads over colliding hosts with cache sizes 1-2, a clock thread crossing the expiry and resolver faults; DirectKeyFetcher.FetchKeys (1-3 concurrent calls, 2-3 remote servers + the local one, every per-server answer in {keys, error then notary keys, both fail}); concurrent KeyRing.VerifyJSONs batches over overlapping servers; destinationTripper.getTransport / reaper (explicit and timer-fired); destinationTripper.RoundTrip from 2-3 threads over names that share a delegate (resolution cache + transport cache; the well-known lookup and the last hop are scripted scheduling points that may fail); DNSCache.DialContext against a live loopback listener listed behind a refused address; first-time accessor calls on one shared event from 3 threads. EVERY schedule with at most B deviations is executed (a deviation = preempting a runnable thread, or an environment fault; switches forced by blocking are free and fully expanded). Oracles: no deadlock / horizon overrun / panic; cache size at every scheduling point; addresses belong to the host and were answered by the resolver; no cached entry served at or past its expiry; FetchKeys result == union of per-server successes; VerifyJSONs results == sequential results; transport TLS name and linearizability (porcupine) against a sequential cache model; every attempt of a round trip goes to a destination / Host / TLS name its own server name resolves to, the caller gets its own response, success iff its last attempt succeeded; vector-clock data races over the field accesses reported by the instrumented methods. Plus a free-running pass of the same bodies under the Go race detector.")
+	r.Assume("scheduling points at synchronisation operations only; unsynchronised accesses are covered by the vector-clock oracle on instrumented receiver-field accesses (eventV1/2/3, DNSCache, destinationTripper) and by the separate race-detector pass", "the clock is strictly increasing: no two reads return the same instant", "real http.Transport round trips and real DNS are outside the scheduler: the last hop of RoundTrip and the well-known lookup are scripted, SRV lookups fail at the dialer")
 	bound := r.Pick(2, 3)
 	scs := scenarios(r.Thorough())
 	byName := map[string]scenario{}
